@@ -218,7 +218,7 @@ def step_harness():
 # ---------------------------------------------------------------- step 5
 def run_model(cases_text):
     rc, out = sh("ulimit -s unlimited 2>/dev/null; exec " + os.path.join(BUILD, "model", "driver"),
-                 stdin=cases_text.encode(), timeout=7200)
+                 stdin=cases_text.encode(), timeout=2400)
     if rc != 0:
         raise Broken("model driver crashed", out[-400:])
     return out.split("\n")
